@@ -53,6 +53,7 @@ def main():
     if prop not in registry.PROPS:
         print("unknown property", prop)
         sys.exit(2)
+    os.environ["VERIF_TIER_RUNNING"] = tier
     seed = int(os.environ.get("VERIF_SEED", "0") or 0)
     t0 = time.time()
     configs = ["dev"] if tier == "quick" else ["dev", "release", "allfeatures", "test"]
